@@ -285,14 +285,21 @@ def exit_status_runs(chk):
             b, how = docs.perturb(a, r)
             if b is None:
                 b, how = docs.permute_keys(a, r), "equal"
+        if i % 12 == 5:
+            # whole documents that are "falsy" values of different kinds: what the LOADER of the format makes of them counts
+            a, b = r.sample(([], {}, 0, False, "", None, 0.0, [[]], [None], {"k": None}), 2)
+            how = "falsy roots"
         opts = r.choice(docs.ALL_OPTS)
+        # equality is decided on the data itself (trees built straight from the Python values), the files go through the
+        # loader of their format
         same = Table(docs.build(a, opts)).rows[0]["ch"] == Table(docs.build(b, opts)).rows[0]["ch"]
-        fa = mats.file(json.dumps(a).encode(), ".json", "a")
-        fb = mats.file(json.dumps(b).encode(), ".json", "b")
+        fmt = ("json", "yaml", "json", "json5")[i % 4]
+        fa = mats.file(serialise(fmt, a, "A"), EXT[fmt], "a")
+        fb = mats.file(serialise(fmt, b, "B"), EXT[fmt], "b")
         for mode in ([], ["-e"], ["-d"]):
             argv = [fa, fb, "--no-status", "--no-color"] + clim.opt_args(opts) + mode
             jobs.append({"argv": argv, "from": fa, "to": fb, "meta": {"a": a, "b": b, "how": how, "mode": mode, "opts": opts},
-                         "cfg": base_cfg(fromExt="json", toExt="json", fromValid=["json"], toValid=["json"],
+                         "cfg": base_cfg(fromExt=fmt, toExt=fmt, fromValid=[fmt], toValid=[fmt],
                                          sameData=bool(same))})
     records = execute(jobs)
     errs, st = validate(records)
